@@ -1,6 +1,7 @@
 package main
 
 import (
+	"sort"
 	"fmt"
 	"go/token"
 	"go/types"
@@ -426,6 +427,7 @@ func c17EmptyBatch(r *Run) {
 	}
 	// every return with EOF either follows the done flag or sets it on an empty batch; an error from next is returned as is
 	okDone := false
+	nBadLatch := 0
 	eachInstr(cl, func(in ssa.Instruction) {
 		st, ok := in.(*ssa.Store)
 		if !ok {
@@ -442,21 +444,72 @@ func c17EmptyBatch(r *Run) {
 			if c, ok := st.Val.(*ssa.Const); ok && c.Value != nil && c.Value.String() == "true" {
 				fa := p.FA(cl)
 				facts := fa.FactsAt(st)
+				empty := false
 				for _, f := range facts {
 					for _, a := range f.L.Atoms {
 						if a.Op == "len" && Entails(facts, linAtom(a)) { // len(batch) <= 0
-							okDone = true
+							empty = true
 						}
 					}
+				}
+				// … and only then: the latch is set on the success edge of the refill (a refill that failed says nothing
+				// about the end of the listing — latching it turns a transient error into a false end of directory)
+				refillOK := false
+				eachInstr(cl, func(in2 ssa.Instruction) {
+					c2, ok := in2.(*ssa.Call)
+					if !ok || c2.Call.IsInvoke() || staticCallee(&c2.Call) != nil {
+						return
+					}
+					if _, isB := c2.Call.Value.(*ssa.Builtin); isB {
+						return
+					}
+					if e := errResult(c2); e != nil && instrDominates(c2, st) && knownNilAt(e, st) {
+						refillOK = true
+					}
+				})
+				if empty && refillOK {
+					okDone = true
+				} else {
+					nBadLatch++
+					r.Bad("iterator", "mkNext1: the finished flag is set only after a successful refill that returned no entries", st.Pos(),
+						"the end-of-listing latch is set on a path where the refill failed or returned entries: a transient error (or a non-empty batch) ends the listing early and the remaining entries are never delivered")
 				}
 			}
 		}
 	})
+	_ = nBadLatch
 	r.Check(okDone, "iterator", "mkNext1: an empty batch marks the listing finished", cl.Pos(), "an empty batch does not end the listing (the iterator is polled for ever / entries after it are lost)")
 }
 
 func c17SessionSubstitutes(r *Run) {
 	p := r.P
+	isDirTestsTheBit(r, "isdir")
+	// Readdir keeps an iterator, a look-ahead entry and the running offset without a lock of its own: it relies on
+	// the session to serialise the reads of one fid — File.Read is called with the fid's lock held
+	{
+		ts, _ := runSessionTypestate(p, false)
+		keys := []string{}
+		for k := range ts.acc {
+			if strings.HasPrefix(k, "(*p9p.session).Read:") {
+				keys = append(keys, k)
+			}
+		}
+		sort.Strings(keys)
+		nRead := 0
+		for _, k := range keys {
+			a := ts.acc[k]
+			if !strings.Contains(k, "File") {
+				continue
+			}
+			nRead++
+			if a.ok {
+				r.Ok("read-serialised", a.key, a.pos)
+			} else {
+				r.Bad("read-serialised", a.key, a.pos, a.why+" — two reads of one directory fid overlap in the Readdir: both pass the offset check and share the iterator and the look-ahead entry")
+			}
+		}
+		r.Floor("read-serialised", nRead, 2, "accesses to the fid's File in session.Read")
+	}
 	ol := p.Fn("p9p:openLocked")
 	if ol == nil {
 		r.Undecided("substitute", "openLocked", token.NoPos, "anchor not found")
